@@ -60,7 +60,21 @@ class Family:
 
 def run_family(fam: Family, tier: str, seed: int) -> int:
     rep = core.Report(fam.prop, tier, seed)
-    rep.assumptions = list(fam.assumptions)
+    run_part(fam, tier, seed, rep)
+    return rep.finish()
+
+
+def run_parts(prop: str, fams: list[Family], tier: str, seed: int) -> int:
+    rep = core.Report(prop, tier, seed)
+    for f in fams:
+        run_part(f, tier, seed, rep)
+    return rep.finish()
+
+
+def run_part(fam: Family, tier: str, seed: int, rep: core.Report) -> None:
+    for a in fam.assumptions:
+        if a not in rep.assumptions:
+            rep.assumptions.append(a)
     rng = random.Random(seed)
     cfgdir = core.OUT / fam.prop
     cfgdir.mkdir(parents=True, exist_ok=True)
@@ -142,16 +156,16 @@ def run_family(fam: Family, tier: str, seed: int) -> int:
     for i, r in enumerate(results):
         if "machinery_error" in r:
             raise tlc.TLCError("replay failed: " + r["machinery_error"])
-        traces.append({"id": i, "events": r["events"]})
+        traces.append({"id": i, "events": r["events"], "params": r.get("params")})
     if fam.extra_traces is not None:
         for k, t in enumerate(fam.extra_traces(tier, seed)):
             scenarios.append({"scn": t.get("scn"), "kw": t.get("kw", {}), "fin": None,
                               "src": t.get("src", "extra")})
             results.append({"events": t["events"], "final": None, "flags": t.get("flags", {})})
-            traces.append({"id": len(scenarios) - 1, "events": t["events"]})
+            traces.append({"id": len(scenarios) - 1, "events": t["events"], "params": t.get("params")})
 
-    verdicts = tlc.validate_traces(fam.t_module, traces, tag=fam.prop)
-    rep.traces = len(verdicts)
+    verdicts = tlc.validate_traces(fam.t_module, traces, tag=f"{fam.prop}-{fam.mc_module}")
+    rep.traces += len(verdicts)
     nontrivial = 0
     for v in verdicts:
         i = v["id"]
@@ -160,16 +174,16 @@ def run_family(fam: Family, tier: str, seed: int) -> int:
             nontrivial += 1
         if r["flags"].get("budget"):
             rep.violation("handle budget exceeded: the program never became idle",
-                          {"scenario": s["scn"], "kw": s["kw"], "src": s["src"]},
-                          signature="budget")
+                          {"scenario": s["scn"], "kw": s["kw"], "src": s["src"],
+                           "family": fam.mc_module}, signature="budget")
             continue
         if v["bad"]:
             ev = r["events"][v["at"] - 1] if 0 < v["at"] <= len(r["events"]) else None
             sig = fam.signature_of(s, {"bad": v["bad"], "event": ev, "events": r["events"]}) \
-                if fam.signature_of else None
+                if fam.signature_of else ",".join(v["bad"])
             rep.violation(f"clause {','.join(v['bad'])} violated at event {v['at']}: {ev}",
                           {"scenario": s["scn"], "kw": s["kw"], "src": s["src"],
-                           "trace": r["events"], "failing_event_index": v["at"],
+                           "family": fam.mc_module, "trace": r["events"], "failing_event_index": v["at"],
                            "clauses": v["bad"]}, signature=sig)
         elif s["fin"] is not None and fam.compare_final is not None and r.get("final") is not None:
             diffs = fam.compare_final(s["fin"], r["final"])
@@ -180,11 +194,11 @@ def run_family(fam: Family, tier: str, seed: int) -> int:
     for i in range(0, len(scenarios), max(1, len(scenarios) // 4)):
         rep.sample({"scenario": scenarios[i]["scn"], "kw": scenarios[i]["kw"],
                     "source": scenarios[i]["src"], "trace": results[i]["events"][:12]})
-    rep.evaluations = len(scenarios)
-    rep.distinct = nontrivial
+    rep.evaluations += len(scenarios)
+    rep.distinct += nontrivial
     rep.rule = ("scenarios = maximal histories of nondeterministic choices of the TLA+ model (one per "
                 "choice edge of the exhaustive state graph, plus -simulate behaviours of the larger "
                 "configuration), deduplicated; non-trivial = recorded trace has at least 3 events")
-    rep.extra["scenarios_with_model_final"] = sum(1 for s in scenarios if s["fin"] is not None)
+    rep.extra["scenarios_with_model_final"] = rep.extra.get("scenarios_with_model_final", 0) + \
+        sum(1 for s in scenarios if s["fin"] is not None)
     rep.extra["exhaustive"] = False
-    return rep.finish()
